@@ -143,6 +143,7 @@ Proof.
   intro H. unfold dec_enum. apply safe_bind_sw; [apply safe_dec_array|]. intro r.
   repeat match goal with |- safe _ _ (match ?x with _ => _ end) => destruct x end; try apply safe_fail.
   apply safe_bind_ww; [apply safe_weaken, safe_dec_u32|]. intro i.
+  destruct (i <? len ds); [|apply safe_fail].
   destruct (nth_error ds (N.to_nat i)) as [d|] eqn:E; [|apply safe_fail].
   apply nth_error_In in E. rewrite Forall_forall in H.
   apply safe_bind_ww; [apply safe_weaken; now apply H|]. intro x. apply safe_ret.
